@@ -13,6 +13,10 @@ import (
 	"crypto/ecdsa"
 	"crypto/ed25519"
 	"crypto/elliptic"
+	"crypto/x509"
+	"encoding/asn1"
+	"encoding/binary"
+	"math/big"
 	"encoding/base64"
 	"encoding/hex"
 	"encoding/json"
@@ -76,6 +80,9 @@ type wOp struct {
 	KeyOK   bool     `json:"keyok,omitempty"` // did:jwk / did:key: the library decoded the identifier into a supported public key
 	Resps   []wResp  `json:"resps,omitempty"`
 	Again   string   `json:"again,omitempty"` // outcome of a second, identical resolution
+	MC      *string  `json:"mc,omitempty"`    // did:key: the bytes base58btc decodes the identifier (without its first character) to (absent = not base58): library verdict
+	ECOK    bool     `json:"ecok,omitempty"`  // did:key: the bytes after the codec decompress to a point of the curve the codec names (library verdict)
+	RSA     string   `json:"rsa,omitempty"`   // did:key: PKCS#1 verdict on the bytes after the codec: parse | small | ok
 	Sib     []wSib   `json:"sib,omitempty"`   // did:web: the DIDs in this node's store that differ from the requested one only in letter case, with their histories
 	Tag     string   `json:"tag,omitempty"`
 }
@@ -267,6 +274,9 @@ func (n *wNode) resolveOnce(id did.DID, allow bool, resps []wResp) (string, int)
 		if id.Method == "x509" {
 			return "err:x509", n.rt.n
 		}
+		if id.Method == "key" {
+			return "err:invalid-key:" + wKeyClass(err.Error()), n.rt.n
+		}
 		return "err:" + wErr(err), n.rt.n
 	}
 	wLastDoc = doc
@@ -327,12 +337,15 @@ func wExec(t *testing.T, node **wNode, op *wOp) (line string) {
 		// library verdict for the key methods (data for the model), and a second identical resolution
 		if id.Method == "jwk" || id.Method == "key" {
 			op.KeyOK = strings.HasPrefix(out, "ok:")
-			if !op.KeyOK {
+			if !op.KeyOK && id.Method == "jwk" {
 				out = "err:invalid-key"
 			}
 		}
+		if id.Method == "key" {
+			wKeyVerdicts(op, id.ID)
+		}
 		again, _ := n.resolveOnce(id, op.Allow, op.Resps)
-		if (id.Method == "jwk" || id.Method == "key") && !strings.HasPrefix(again, "ok:") {
+		if id.Method == "jwk" && !strings.HasPrefix(again, "ok:") {
 			again = "err:invalid-key"
 		}
 		op.Again = again
@@ -373,8 +386,13 @@ func wKeyBound(id did.DID, doc *did.Document) bool {
 				return false
 			}
 		} else if ed, ok := pk.(ed25519.PublicKey); ok {
+			// the key bytes are what follows the multicodec varint (Go reads over-long encodings of the codec too)
 			mc, err := base58.Decode(id.ID[1:])
-			if err != nil || len(mc) != 34 || string(mc[2:]) != string(ed) {
+			if err != nil {
+				return false
+			}
+			_, n := binary.Uvarint(mc)
+			if n <= 0 || len(mc)-n != 32 || string(mc[n:]) != string(ed) {
 				return false
 			}
 		}
@@ -419,7 +437,153 @@ var wKeyExamples = []string{
 	"z6LSeu9HkTHSfLLeUs2nnzUSNedgDUevfNQgQjQC23ZCit6F", "z", "z6Mk", "x6MkhaXgBZDvotDkL5257faiztiGiC2QtKLGpbnnEGta2doK", "z0OIl", "zzzzzzzz",
 }
 
+
+// wKeyClass maps the error of didkey.Resolver to the refusal site
+func wKeyClass(err string) string {
+	switch {
+	case strings.Contains(err, "does not start with 'z'"):
+		return "noz"
+	case strings.Contains(err, "invalid base58btc"):
+		return "base58"
+	case strings.Contains(err, "invalid multicodec value"):
+		return "multicodec"
+	case strings.Contains(err, "bls12381"):
+		return "unsupported:Bls12_381G2Pub"
+	case strings.Contains(err, "secp256k1"):
+		return "unsupported:Secp256k1Pub"
+	case strings.Contains(err, "invalid public key length"):
+		return "len"
+	case strings.Contains(err, "invalid PKCS#1"):
+		return "rsa-parse"
+	case strings.Contains(err, "RSA public key is too small"):
+		return "rsa-small"
+	case strings.Contains(err, "unsupported public key type"):
+		return "type"
+	}
+	return "lib"
+}
+
+// wKeyVerdicts fills the library verdicts of a did:key identifier (independent of the resolver)
+func wKeyVerdicts(op *wOp, id string) {
+	op.MC, op.ECOK, op.RSA = nil, false, ""
+	if len(id) == 0 {
+		return
+	}
+	mc, err := base58.DecodeAlphabet(id[1:], base58.BTCAlphabet)
+	if err != nil {
+		return
+	}
+	h := hex.EncodeToString(mc)
+	op.MC = &h
+	code, n := binary.Uvarint(mc)
+	if n <= 0 {
+		return
+	}
+	key := mc[n:]
+	var curve elliptic.Curve
+	switch code {
+	case 0x1200:
+		curve = elliptic.P256()
+	case 0x1201:
+		curve = elliptic.P384()
+	case 0x1202:
+		curve = elliptic.P521()
+	case 0x1205:
+		k, err := x509.ParsePKCS1PublicKey(key)
+		switch {
+		case err != nil:
+			op.RSA = "parse"
+		case k.N.BitLen() <= 2040: // fewer than 2048 bits (in whole bytes)
+			op.RSA = "small"
+		default:
+			op.RSA = "ok"
+		}
+	}
+	if curve != nil {
+		func() {
+			defer func() { recover() }()
+			x, _ := elliptic.UnmarshalCompressed(curve, key)
+			op.ECOK = x != nil
+		}()
+	}
+}
+
+func wRSAKey(r *rand.Rand, bits int) []byte {
+	n := make([]byte, bits/8)
+	r.Read(n)
+	n[0] |= 0x80
+	n[len(n)-1] |= 1
+	b, _ := asn1.Marshal(struct {
+		N *big.Int
+		E int
+	}{new(big.Int).SetBytes(n), 65537})
+	return b
+}
+
+var wKeyCodes = []uint64{0xeb, 0xec, 0xed, 0xe7, 0x1200, 0x1201, 0x1202, 0x1205, 0x1203, 0x1204, 0x00, 0x7f, 0x80, 0x12, 0xe8, 0xee, 0x11ff, 0xed01}
+
+// wDidKeySystematic: every codec of the switch (and neighbours), canonical / over-long / truncated / overflowing
+// varints, key lengths around the expected one, valid and invalid curve points, RSA keys of both sizes
+func wDidKeySystematic(r *rand.Rand) string {
+	code := wKeyCodes[r.Intn(len(wKeyCodes))]
+	pre := binary.AppendUvarint(nil, code)
+	switch r.Intn(12) {
+	case 0: // over-long (non-canonical) encoding of the same code
+		pre[len(pre)-1] |= 0x80
+		pre = append(pre, 0x00)
+	case 1: // truncated: continuation bit on the last byte, nothing follows
+		pre[len(pre)-1] |= 0x80
+		return "z" + base58.Encode(pre)
+	case 2: // ten or eleven continuation bytes
+		pre = append(make([]byte, 0), 0xff, 0xff, 0xff, 0xff, 0xff, 0xff, 0xff, 0xff, 0xff)
+		pre = append(pre, []byte{0x01, 0x02, 0x7f, 0x80}[r.Intn(4)])
+		if r.Intn(2) == 0 {
+			pre = append(pre, 0x01)
+		}
+	}
+	var body []byte
+	want := map[uint64]int{0xec: 32, 0xed: 32, 0x1200: 33, 0x1201: 49, 0x1202: 67}[code]
+	switch code {
+	case 0x1200, 0x1201, 0x1202:
+		curve := map[uint64]elliptic.Curve{0x1200: elliptic.P256(), 0x1201: elliptic.P384(), 0x1202: elliptic.P521()}[code]
+		if k, err := ecdsa.GenerateKey(curve, r); err == nil && r.Intn(3) != 0 {
+			body = elliptic.MarshalCompressed(curve, k.X, k.Y)
+			if r.Intn(5) == 0 {
+				body[0] = byte(r.Intn(8)) // other / invalid prefix byte
+			}
+			if r.Intn(5) == 0 {
+				body[1+r.Intn(len(body)-1)] ^= byte(1 + r.Intn(255)) // most probably no longer on the curve
+			}
+		}
+	case 0x1205:
+		switch r.Intn(4) {
+		case 0:
+			body = wRSAKey(r, 2048)
+		case 1:
+			body = wRSAKey(r, []int{512, 1024, 2040}[r.Intn(3)])
+		case 2:
+			body = wRSAKey(r, 2048)
+			body = body[:len(body)-1-r.Intn(8)]
+		}
+	}
+	if body == nil {
+		n := want + []int{0, 0, 0, -1, 1, -want, 7}[r.Intn(7)]
+		if want == 0 {
+			n = r.Intn(40)
+		}
+		if n < 0 {
+			n = 0
+		}
+		body = make([]byte, n)
+		r.Read(body)
+	}
+	return "z" + base58.Encode(append(pre, body...))
+}
+
 func wDidKey(r *rand.Rand) string {
+	if r.Intn(3) != 0 {
+		return wDidKeySystematic(r)
+	}
 	switch r.Intn(4) {
 	case 0:
 		pub := make([]byte, 32)
